@@ -63,7 +63,7 @@ def run(ck):
             done += 1
             for min_vis, opts in ((0, []), (1, ["-promiscuous"])):
                 cmd = [str(bdir / "bin" / "interrogate"), "-D__cplusplus", "-oc", "o.cxx", "-od", "o.in", "-oh", "o.txt", "-module", "m", "-library", "l", "-c", "-fnames",
-                       "-Iinc", "-Ssys"] + opts + ["main.h", "sub/b.h"]
+                       "-Iinc", "-Ssys"] + opts + ["main.h", "sub/b.h", "sys/own.h"]
                 rc, so, se = iglib.sh(cmd, cwd=str(d), timeout=120)
                 ck.search_case("layout-processed")
                 if rc != 0:
